@@ -33,6 +33,11 @@ Transcription of testtools/testsuite.py lines 65-195.
 * Exceptions reaching main: `make_tests` raises after yielding `k` sub-suites; the `m`-th `queue.get()` is
   interrupted (how a `KeyboardInterrupt` is modelled); the caller's result raises at main's `j`-th call on
   it (stream: a `status` call; suite: a `stop` call of the abort path, which then aborts the abort).
+* Inside the machine a status event carries the index of the worker that emitted it (`SEv.w`; the code keys its table by
+  the worker's `StreamToQueue` OBJECT, and the `stopTestRun` item carries that object: a worker is its position in what
+  `make_tests` yields, whatever route code it was given).  What the caller's result can see of that is the route code:
+  `traceOf` relabels every delivered event with `routeOf` - two workers given the same code (`None` twice, the same string)
+  are then told apart by nothing but the content and order of their events.
 * `threads[...]` is main-local: removing the entry when the finished sub-suite is taken from the queue
   (stream: as the code does; suite: the code deletes it after the join) is indistinguishable, because
   nothing can raise between `get` and the end of `join` in this model. -/
@@ -91,7 +96,12 @@ structure SInput where
   mfaults : List Nat       -- main's calls on the caller's result that raise
   tb : Nat                 -- chunks of a broken-runner traceback (measured on the implementation)
   sched : List Nat
+  routes : List Nat := []  -- stream flavour: the route code `make_tests` gives to each worker, as a small number; codes may REPEAT
+                           -- (several workers given `None`, or the same string); a worker without an entry has its own index
 deriving Repr, Inhabited
+
+/-- the route code of worker `w` (equal codes for different workers are allowed) -/
+def routeOf (i : SInput) (w : Nat) : Nat := (i.routes[w]?).getD w
 
 /-! ## worker programs -/
 
@@ -346,7 +356,8 @@ def finalC (i : SInput) : CSt := drainC i (fuelC i) (runC i (initC i) i.sched)
 
 structure STrace where
   log : List Ev                        -- suite: semaphore/target events (thread 0 = main, w+1 = worker w)
-  sink : List (SEv × Bool × Bool)      -- stream: events received by the caller's result: (event, has timestamp, raised)
+  sink : List (SEv × Bool × Bool)      -- stream: events received by the caller's result: (event, has timestamp, raised); the `w` of
+                                       -- an observed event is its ROUTE CODE - all that tells the caller who emitted it
   result : Option MainRes              -- how run() ended (none: it never did)
   spawned : List Nat                   -- workers started, in order
   joined : List Nat                    -- workers joined, in order
@@ -360,7 +371,7 @@ deriving Repr, Inhabited
 def traceOf (i : SInput) (s : CSt) : STrace :=
   let n := i.workers.length
   { log := s.base.log,
-    sink := s.sink.map fun p => (p.1, true, p.2),
+    sink := s.sink.map fun p => ({ p.1 with w := routeOf i p.1.w }, true, p.2),
     result := s.result,
     spawned := List.range s.nsp,
     joined := s.joined,
